@@ -496,6 +496,9 @@ type ValidDocOpts struct {
 	// Subscriptions: also generate `subscription` operations when the schema has a subscription root (opt-in: the
 	// executor harnesses drive graphql.Do, which does not run subscriptions like queries)
 	Subscriptions bool
+	// RootSpreadFirst: half of the operations start with a spread of a fragment on the root type (top-level fields
+	// contributed by a fragment, placed before the directly written ones: execution order of mutations)
+	RootSpreadFirst bool
 }
 
 type ValidMeta struct {
@@ -1022,6 +1025,13 @@ func (g *vgen) document() *VDoc {
 		g.curIdx, g.curVars, g.curSpreads = -1, map[string]bool{}, map[string]bool{}
 		o.Dirs = g.siteDirs(strings.ToUpper(o.Kind))
 		o.Sel = g.selSet(o.Root, depth, false)
+		if g.o.RootSpreadFirst && !g.o.NoFragments && r.Chance(1, 2) {
+			fr := &VFrag{Name: fmt.Sprintf("R%d", len(g.extraFrags)), On: o.Root, Sel: []*VSel{g.field(o.Root, 1)}}
+			g.extraFrags = append(g.extraFrags, fr)
+			g.curSpreads[fr.Name] = true
+			o.Sel = append([]*VSel{{Kind: "spread", Name: fr.Name, Parent: o.Root}}, o.Sel...)
+			g.feat("root-spread-first")
+		}
 		opVars, opSpreads = append(opVars, g.curVars), append(opSpreads, g.curSpreads)
 		doc.Ops = append(doc.Ops, o)
 	}
